@@ -76,6 +76,26 @@ def _worker(args):
             out["result"] = res.as_dict()
             if res.notes:
                 out["validation_error"] = "; ".join(res.notes[:2])
+            # vacuity guard: the twin of this instance asserts False where the obligations would be; the solver must return a
+            # model (the obligations are reachable under satisfiable assumptions) and that model must run on the real code
+            # without a violation (exercises the model -> replay pipeline end to end)
+            if not res.cex and job.get("twin"):
+                def run_twin(ctx, _run=run):
+                    obs = _run(ctx)
+                    return [("reachability twin: assert False", False)] if obs else obs
+
+                rt = explore(run_twin, label=label + ":twin", max_paths=2000, max_seconds=300.0, stop_on_cex=True)
+                if not rt.cex:
+                    out["error"] = "vacuity twin: no path of this instance reaches an obligation under satisfiable assumptions"
+                elif "replay" in h:
+                    with H.unpatched():
+                        tmsg = h["replay"](job, rt.cex[0]["inputs"], rt.cex[0].get("notes", {}))
+                    if tmsg is not None:
+                        out["validation_error"] = f"vacuity twin: the real code reports a violation on the twin's model: {tmsg}"
+                    else:
+                        out["twin_ok"] = 1
+                else:
+                    out["twin_ok"] = 1
             # translator validation: pinned concrete runs through the shim vs the real code
             if not res.cex and "pinned" in h:
                 for inputs in h["pinned"](job, seed):
@@ -129,6 +149,7 @@ def run_property(prop_id: str, tier: str, seed: int, procs: int | None = None) -
     per_harness: dict[str, dict] = {}
     slow: list = []
     early_stop = False
+    twins_ok = 0
     ctxm = mp.get_context("fork")
     with ctxm.Pool(min(procs, max(1, len(jobs)))) as pool:
         for out in pool.imap_unordered(_worker, [(prop_id, j, seed, tier) for j in jobs], chunksize=1):
@@ -151,6 +172,7 @@ def run_property(prop_id: str, tier: str, seed: int, procs: int | None = None) -
                 pool.terminate()
                 break
             validated += out["validated"]
+            twins_ok += out.get("twin_ok", 0)
             if out["validation_error"]:
                 val_errors.append(f"{out['label']}: {out['validation_error']}")
             for inputs, sig in out.get("_pinned", []):
@@ -220,7 +242,7 @@ def run_property(prop_id: str, tier: str, seed: int, procs: int | None = None) -
             paths=total.paths, paths_aborted_infeasible=total.aborted, paths_truncated_outside_claim=total.truncated,
             obligations=total.obligations, discharged=total.discharged,
             queries=total.queries, solver_s=round(total.solver_s, 3),
-            jobs=len(jobs), per_harness=per_harness,
+            jobs=len(jobs), per_harness=per_harness, vacuity_twins_violated_as_required=twins_ok,
             functions_encoded=meta.get("functions", []), bounds=meta.get("bounds", {}).get(tier, meta.get("bounds", {})),
             degenerate=meta.get("degenerate", {}), stubs=meta.get("stubs", []),
             outside_claim=meta.get("outside", []), engine=meta.get("engine", "symx path-forking executor over z3 " + z3.get_version_string()),
